@@ -1,15 +1,15 @@
 SPECIFICATION Spec
 CONSTANTS
  NK = 3
- MaxFaults = 2
- MaxLead = 1
- MaxAttempts = 2
+ MaxFaults = 1
+ MaxLead = 0
+ MaxAttempts = 1
  MaxRetries = 2
- MaxPasses = 0
+ MaxPasses = 1
  CheckTs = {25, 40}
- Concurrent = FALSE
+ Concurrent = TRUE
  Dev = {}
- Orders = "all"
+ Orders = "two"
  PlanMax = 0
  MaxHist = 0
 VIEW view
